@@ -115,7 +115,10 @@ OnlyDeclared(S, v, defs) ==
     IF SHas(S, "bool") THEN TRUE
     ELSE IF SHas(S, "ref") THEN OnlyDeclared(defs[S.ref], v, defs)
     ELSE
-    /\ (v.t = "obj" =>
+    (* the members of an object are judged by S itself only when S describes an object; a pure
+       oneOf / anyOf / allOf wrapper leaves them to its branches *)
+    /\ (v.t = "obj" /\ (SHas(S, "properties") \/ SHas(S, "additionalProperties")
+                        \/ ~(SHas(S, "oneOf") \/ SHas(S, "anyOf") \/ SHas(S, "allOf"))) =>
           \A i \in DOMAIN v.k :
              IF SHas(S, "properties") /\ v.k[i] \in DOMAIN S.properties
              THEN OnlyDeclared(S.properties[v.k[i]], v.v[i], defs)
@@ -129,5 +132,10 @@ OnlyDeclared(S, v, defs) ==
             Valid(S.oneOf[i], v, defs) /\ OnlyDeclared(S.oneOf[i], v, defs))
     /\ (SHas(S, "anyOf") => \E i \in DOMAIN S.anyOf :
             Valid(S.anyOf[i], v, defs) /\ OnlyDeclared(S.anyOf[i], v, defs))
-    /\ (SHas(S, "allOf") => \A i \in DOMAIN S.allOf : TRUE)
+    (* allOf: every member must be declared by some branch (for objects), each branch judging the
+       members it declares *)
+    /\ (SHas(S, "allOf") /\ v.t = "obj" =>
+          \A i \in DOMAIN v.k : \E b \in DOMAIN S.allOf :
+              LET B == IF SHas(S.allOf[b], "ref") THEN defs[S.allOf[b].ref] ELSE S.allOf[b] IN
+              SHas(B, "properties") /\ v.k[i] \in DOMAIN B.properties)
 =============================================================================
